@@ -546,7 +546,7 @@ def run_C10(run):
     run.gen_and_parse("MC_Syntax", consts(sy, MaxOps=2, OperandIds={"a", "@a", "..", ".", "ax", "pred", "fn1"},
                                           OpIds={"/", "//", "|", "=", "and", "+", "*"}), "abbreviations", inv)
     # (4a) names with '.', '-' and digits in non-initial position as operands of every operator
-    run.gen_and_parse("MC_Syntax", consts(sy, MaxOps=2, OperandIds={"a.b", "a-b", "a1", "a.1", "a-", "p:a.b", "1", "."} if not q else {"a.b", "a-b", "a.1", "a-", "1"},
+    run.gen_and_parse("MC_Syntax", consts(sy, MaxOps=2, OperandIds={"a.b", "a-b", "a1", "a.1", "a-", "a-1", "a-1b", "p:a.b", "1", "."} if not q else {"a.b", "a-b", "a.1", "a-", "a-1", "1"},
                                           OpIds=ALL_OPS), "odd-names", inv)
     # (4b) the expressions of the repository's own test suite through the reference lexer + parser
     run.gen_and_parse("MC_Corpus", {}, "corpus", ("Emit",))
